@@ -1,1 +1,114 @@
-/-! Property theorems for C04 (see /verif/DESIGN.md). Only property theorems and non-vacuity examples live here. -/
+import Proofs.C04Render
+import Proofs.C04Gen
+/-! Property theorems for C04 (see /verif/DESIGN.md). Only property theorems and non-vacuity examples live here.
+
+Model: `GoawkModel.C04` (one function per level of `parser/parser.go`, open recursion, fuel = #tokens), the POSIX table as
+data (`BOp.prec`, `BOp.assoc`, `Expr.prec`), `renderMin` (only the parentheses the table requires), `renderFull`, `strip`.
+Language of the theorems (`wfA`): numbers, strings, variables, grouping, `^`, unary `- + !`, `* / %`, `+ -`, concatenation
+(with its start-token rule), relational, `~ !~`, `in`, `&&`, `||`, `?:`, assignment to a variable; both the plain
+(`pc = false`) and the print-argument (`pc = true`) context. Pre/post `++ --`, `$`, indexing and the getline forms are in
+the executable model (validated by correspondence) but have no round-trip theorem yet: `same_grouping_full`. -/
+namespace GoawkModel.C04
+
+/-- Writing a tree with every sub-expression parenthesised parses back to the tree. -/
+theorem parse_renderFull (e : Expr) (hwf : wfA e = true) (pc : Bool) (rest : List Tok) (hf : Follow pc rest) :
+    stripRes (parseExpr pc (renderFull e ++ rest)) = .ok (e, rest) := by
+  have h := full_ok e hwf
+  unfold renderFull
+  rw [parseExpr_canon pc (grp e) rest (h.2.1 pc 1 (by omega)) (by unfold Follow at hf; omega)]
+  simp only [stripRes, h.2.2]
+
+/-- Writing a tree with only the parentheses the POSIX table requires parses back to the tree. -/
+theorem parse_renderMin (e : Expr) (hwf : wfA e = true) (pc : Bool) (rest : List Tok) (hf : Follow pc rest) :
+    stripRes (parseExpr pc (renderMin pc e ++ rest)) = .ok (e, rest) := by
+  have h := min_ok e hwf pc
+  unfold renderMin
+  rw [parseExpr_canon pc (addMin pc e) rest (h.1 1 (by unfold topLevel; split <;> first | omega | exact one_le_prec e))
+    (by unfold Follow at hf; omega)]
+  simp only [stripRes, h.2]
+
+/-- The grouping of the minimally parenthesised spelling is that of the fully parenthesised one. -/
+theorem same_grouping (e : Expr) (hwf : wfA e = true) (pc : Bool) (rest : List Tok) (hf : Follow pc rest) :
+    stripRes (parseExpr pc (renderMin pc e ++ rest)) = stripRes (parseExpr pc (renderFull e ++ rest)) := by
+  rw [parse_renderMin e hwf pc rest hf, parse_renderFull e hwf pc rest hf]
+
+/-- The parser reads back every tree of its own range (written parentheses = `group` nodes), exactly. -/
+theorem parse_canonical (c : Expr) (pc : Bool) (rest : List Tok) (hc : canon pc 1 c = true) (hf : Follow pc rest) :
+    parseExpr pc (render c ++ rest) = .ok (c, rest) :=
+  parseExpr_canon pc c rest hc (by unfold Follow at hf; omega)
+
+/-- Inside `print`, an unparenthesised `>` (`>>`, `|`) after a complete argument is the redirection, never a comparison:
+    `print A > D` is `Print [A] (>, D)`, for all stage-A trees `A`, `D`. -/
+theorem print_gt_is_redirect (a d : Expr) (t : Tok) (rest : List Tok) (ha : wfA a = true) (hd' : wfA d = true)
+    (ht : isRedirect t = true) (hf : Follow false rest) :
+    (match parsePrint (renderMin true a ++ t :: (renderMin false d ++ rest)) with
+     | .ok (a', some (t', d'), rest') => some (strip a', t', strip d', rest')
+     | _ => none) = some (a, t, d, rest) := by
+  have h1 := min_ok a ha true
+  have h2 := min_ok d hd' false
+  unfold renderMin
+  rw [parsePrint_redirect (addMin true a) (addMin false d) t rest
+    (h1.1 1 (by unfold topLevel; split <;> first | omega | exact one_le_prec a))
+    (h2.1 1 (by unfold topLevel; split <;> first | omega | exact one_le_prec d)) ht (by unfold Follow at hf; omega)]
+  simp only [h1.2, h2.2]
+
+/-- `expr | getline` binds looser than concatenation (and than everything up to `||`): for every tree `c` the parser
+    produces at the `||` level — in particular a concatenation `a b` — `c | getline` is `Getline (cmd := c)`. -/
+theorem pipe_getline_looser_than_concat (a b : Expr) (rest : List Tok) (ha : wfA a = true) (hb : wfA b = true)
+    (hf : Follow false rest) :
+    stripRes (parseExpr false (renderMin false (.binary .concat a b) ++ .pipe :: .getline :: rest)) =
+      .ok (.getline (.binary .concat a b) .none .none, rest) := by
+  have hw : wfA (.binary .concat a b) = true := by simp [wfA, ha, hb, BOp.stageA]
+  have h := min_ok _ hw false
+  unfold renderMin
+  rw [parse_pipe_getline (addMin false (.binary .concat a b)) rest
+    (h.1 3 (by simp [topLevel, Expr.prec, BOp.prec])) hf]
+  simp only [stripRes, strip, h.2]
+
+/-- The full statement of the property over the model's whole expression language (`wfFull`: additionally pre/post
+    `++ --`, `$` with the `$$x++ = $($x++)` rule, `a[i]`, the getline forms, any lvalue as assignment target). Not proved:
+    `same_grouping_partial` covers `wfA`; the rest is checked by the implementation-side oracle and model correspondence. -/
+def same_grouping_full : Prop :=
+  ∀ (e : Expr) (pc : Bool) (rest : List Tok), wfFull e = true → Follow pc rest →
+    stripRes (parseExpr pc (renderMin pc e ++ rest)) = .ok (e, rest) ∧
+    stripRes (parseExpr pc (renderFull e ++ rest)) = .ok (e, rest)
+
+/-- the proved part of `same_grouping_full` -/
+theorem same_grouping_partial (e : Expr) (hwf : wfA e = true) (pc : Bool) (rest : List Tok) (hf : Follow pc rest) :
+    stripRes (parseExpr pc (renderMin pc e ++ rest)) = .ok (e, rest) ∧
+    stripRes (parseExpr pc (renderFull e ++ rest)) = .ok (e, rest) :=
+  ⟨parse_renderMin e hwf pc rest hf, parse_renderFull e hwf pc rest hf⟩
+
+/-- Regenerated tie: parser.go's level functions (operand function, operator tokens, loop shape), primary()'s cases and the
+    print redirection tokens are the ones the model is written from; the POSIX table agrees with ast.go's table. -/
+theorem gen_matches :
+    Generated.C04Levels.levels = expectedLevels ∧ Generated.C04Levels.primaryCases = expectedPrimaryCases ∧
+    Generated.C04Levels.printRedirectTokens = (redirectOrder.filter isRedirect).map tokName ∧
+    (∀ op : BOp, op.prec = C20.bopPrec op + 1) :=
+  ⟨gen_matches_levels, gen_matches_primary, gen_matches_redirect, table_matches_ast⟩
+
+/-! ### non-vacuity -/
+
+/-- `x0 = 1 + 2 * - 3 ^ 4 < 5 ? 6 : 7` -/
+def exTree : Expr :=
+  .assign .set (.var 0) (.cond (.binary (.cmp .lt) (.binary .add (.num 1) (.binary .mul (.num 2) (.unary .neg (.binary .pow (.num 3) (.num 4))))) (.num 5)) (.num 6) (.num 7))
+
+example : wfA exTree = true := by decide
+example : Follow false [.rbrace] := rfl
+example : Follow true [.cmp .gt, .str 1] := rfl
+example : wfA (.binary .mul (.binary .add (.num 1) (.num 2)) (.binary (.cmp .gt) (.num 3) (.num 4))) = true := by decide
+example : canon false 1 (.binary .sub (.binary .sub (.num 1) (.num 2)) (.group (.binary .sub (.num 3) (.num 4)))) = true := by decide
+example : wfA (.binary .concat (.var 0) (.unary .neg (.inArr (.binary .match_ (.var 1) (.str 2)) 10))) = true := by decide
+example : canon false 1 (.binary .concat (.binary .concat (.num 1) (.num 2)) (.group (.unary .neg (.num 3)))) = true := by decide
+example : parseExpr false [.num 1, .num 2, .pipe, .getline, .rbrace] =
+    .ok (.getline (.binary .concat (.num 1) (.num 2)) .none .none, [.rbrace]) := by rfl
+example : isRedirect (.cmp .gt) = true ∧ isRedirect .pipe = true ∧ isRedirect .append = true := by decide
+/-- the theorems are not about an always-failing or always-same-answer parser: `1 - 2 - 3` groups to the left, `2 ^ 3 ^ 4` to the right -/
+example : parseExpr false [.num 1, .sub, .num 2, .sub, .num 3, .rbrace] =
+    .ok (.binary .sub (.binary .sub (.num 1) (.num 2)) (.num 3), [.rbrace]) := by rfl
+example : parseExpr false [.num 2, .pow, .num 3, .pow, .num 4, .rbrace] =
+    .ok (.binary .pow (.num 2) (.binary .pow (.num 3) (.num 4)), [.rbrace]) := by rfl
+example : parseExpr false [.num 1, .cmp .lt, .num 2, .cmp .lt, .num 3, .rbrace] =
+    .ok (.binary (.cmp .lt) (.num 1) (.num 2), [.cmp .lt, .num 3, .rbrace]) := by rfl
+
+end GoawkModel.C04
